@@ -87,13 +87,13 @@ _Bool Ruleset__mergeWithDropIn(Ruleset r, uptr_Ruleset d) { if (nondet_bool()) {
 #define IT_SHAPE(b, e, v) ((b).vid == (v).vid && (e).vid == (v).vid && (b).n == (v).n && (e).n == (v).n && (e).i == (v).n && (b).i <= (v).n)
 #define LOOPC_Config2__compileDropIn_1 \
   __CPROVER_assigns(__begin2, ret.rulesets, g_slot_d, g_slot_r, g_any_fail, CR_GHOSTS) \
-  __CPROVER_loop_invariant(IT_SHAPE(__begin2, __end2, dropin.rulesets) && ret.rulesets.n == __begin2.i && ret.prekill_hooks.n == 0 && !g_any_fail && ghost_exc == 0) \
+  __CPROVER_loop_invariant(IT_SHAPE(__begin2, __end2, dropin.rulesets) && ret.rulesets.n == __begin2.i && ret.prekill_hooks.n == 0 && !g_any_fail && ghost_exc == 0 && g_sub_fails == __CPROVER_loop_entry(g_sub_fails)) \
   /* the watched drop-in ruleset cannot be passed if the base config lacks its name */ \
   __CPROVER_loop_invariant(!(g_absent && g_k < __begin2.i)) \
   __CPROVER_decreases(dropin.rulesets.n - __begin2.i)
 #define LOOPC_Config2__compileDropIn_2 \
   __CPROVER_assigns(__begin3, g_slot_r, g_any_fail, CR_GHOSTS) \
-  __CPROVER_loop_invariant(IT_SHAPE(__begin3, __end3, root.rulesets) && !found_target && ret.rulesets.n == __begin2.i && !g_any_fail && ghost_exc == 0) \
+  __CPROVER_loop_invariant(IT_SHAPE(__begin3, __end3, root.rulesets) && !found_target && ret.rulesets.n == __begin2.i && !g_any_fail && ghost_exc == 0 && g_sub_fails == __CPROVER_loop_entry(g_sub_fails)) \
   __CPROVER_decreases(root.rulesets.n - __begin3.i)
 #define LOOPC_Config2__compileDropIn_3 \
   __CPROVER_assigns(__begin2, ret.prekill_hooks, g_any_fail) \
@@ -108,6 +108,8 @@ opt_DropInUnit Config2__compileDropIn(Config2_IR_Root root, Config2_IR_Root drop
   __CPROVER_ensures(!(g_absent && g_k < dropin.rulesets.n) || !__CPROVER_return_value.has) /*@C13*/
   /* any plugin-construction or merge failure rejects the whole drop-in */
   __CPROVER_ensures(!g_any_fail || !__CPROVER_return_value.has) /*@C13,C12*/
+  /* ... and so does a detector group or action of the target or of the drop-in ruleset that does not compile */
+  __CPROVER_ensures(g_sub_fails == __CPROVER_old(g_sub_fails) || !__CPROVER_return_value.has) /*@C13,C12*/
   /* success: one merged ruleset per drop-in ruleset, one hook per drop-in hook */
   __CPROVER_ensures(!__CPROVER_return_value.has || (__CPROVER_return_value.val.rulesets.n == dropin.rulesets.n && __CPROVER_return_value.val.prekill_hooks.n == dropin.prekill_hooks.n)) /*@C13*/
   __CPROVER_ensures(ghost_exc == 0);
